@@ -162,6 +162,13 @@ FAMILIES = {
                            dict(mode="sim", max_nodes=6, min_nodes=3, num=60000, depth=18, procs=12)]},
         shards=[["ds"], ["cached"], ["with"], ["fnapp"]],
         shard_defs={"ds": "SK_ds", "cached": "SK_cached", "with": "SK_with", "fnapp": "SK_leafish"}),
+    "illsorted": dict(
+        consts=dict(Raises="NoRaises", Kinds="FI_Kinds", Paths="FI_Paths", Consts="FI_Consts", Tmpls="None0",
+                    Fns="None0", Bodies="None0", DispVals="NoSeq", Preds="None0", Presets="None0",
+                    MapPaths="None0", Leaves="FI_Leaves"),
+        sharing=False,
+        runs={"quick": [dict(mode="bfs", max_nodes=3)], "thorough": [dict(mode="bfs", max_nodes=3)]},
+        shards=[["opt"]], shard_defs={"opt": "SK_opt"}),
     "cases": dict(
         consts=dict(Raises="NoRaises", Kinds="FCS_Kinds", Paths="FCS_Paths", Consts="FCS_Consts", Tmpls="None0",
                     Fns="None0", Bodies="None0", DispVals="NoSeq", Preds="FCS_Preds", Presets="None0",
